@@ -1,4 +1,4 @@
-HOOK_COMMITS = []
+HOOK_COMMITS = ["27ad88b"]
 NOTES = ("Machine-checked proof in Lean 4 over a hand-written executable model of go-jsonrpc, tied to /repo on every run by "
          "(a) facts regenerated from the Go source with obligations re-checked by Lean and (b) a correspondence harness that "
          "runs the real library and the model's executable definitions on the same cases / replays implementation traces "
@@ -39,6 +39,26 @@ CHECKS = [
   "design_ref": "DESIGN.md §6 C19",
   "note": TB,
   "technique": "Lean 4 theorems (decision logic stated outright) + exhaustive differential correspondence"},
+ {"property_id": "C10",
+  "text": "Theorems over the frame executor modelled as a total function with explicit crash outcomes (every slice index and map-key "
+          "hash is a possible crash): for every endpoint state and every frame a peer can send (control methods with any params, ids of "
+          "any JSON type, unrequested responses, undecodable buffers) and every finite sequence of them, no crash; control frames never "
+          "start a handler nor alter registered calls; other connections' state is untouched; bodies are refused iff size > limit, with "
+          "an error and no handler run. Tie: regenerated statement skeletons of cancelCtx/handleChanMessage/handleChanClose/frameExecutor/"
+          "handleResponse + the property's frame grid and random sequences sent to a real server and (from a fake server) a real client "
+          "running in child processes, compared with the model's predicted effects; sizes L-1..L+2 for 11 limits.",
+  "design_ref": "DESIGN.md §6 C10",
+  "note": TB + " Byte-level mutations are sampled, not proved; 'wedge' is observed as the same and other connections still answering.",
+  "technique": "Lean 4 theorems (total executor with crash outcomes, induction over frame sequences) + regenerated skeleton facts + subprocess differential correspondence"},
+ {"property_id": "C05",
+  "text": "PARTIAL (backoff clause only in this revision): theorems that for all minDelay <= maxDelay, all attempts and all jitters in [0,1) "
+          "the redial/retry delay lies in [minDelay, maxDelay] and is positive when minDelay > 0, so the loops never spin; interval lemma "
+          "used by the differential check. Tie: regenerated skeleton of backoff.next and default constants; differential run of the real "
+          "backoff.next (via a verif-tagged export) over a grid of settings and attempts 0..400 (2000 thorough). The healing / retry / "
+          "no-reconnect clauses are covered by the connection model of later revisions.",
+  "design_ref": "DESIGN.md §6 C05",
+  "note": TB + " Float arithmetic is modelled exactly; only interval membership with a stated slack is compared.",
+  "technique": "Lean 4 theorems (arithmetic over exact rationals) + regenerated skeleton facts + differential correspondence"},
 ]
 
 _PENDING = "check under construction in this round (see DESIGN.md §13 build order); not claimed until its theorem file, tie and unchanged-tree sweep exist"
